@@ -112,17 +112,22 @@ func hdrTag(h string) *tpb.Tracing_CustomTag {
 	return &tpb.Tracing_CustomTag{Type: &tpb.Tracing_CustomTag_Header{Header: &tpb.Tracing_RequestHeader{Name: h, DefaultValue: "none"}}}
 }
 
-// ---- WasmPlugin ----
+// ---- TrafficExtension (the kind the push context reads; WasmPlugin objects are converted to it by a
+// controller that is not part of this environment) ----
 
-func wasm(ns, name string, selector map[string]string, phase extensions.PluginPhase, prio int32, cfg map[string]any) config.Config {
-	w := &extensions.WasmPlugin{
-		Url: "oci://registry.example/" + name + ":v1", Phase: phase, Priority: wrapperspb.Int32(prio),
-	}
-	if cfg != nil {
-		w.PluginConfig = mustStruct(cfg)
+func trafficExt(ns, name string, selector map[string]string, phase extensions.TrafficExtension_ExecutionPhase, prio int32, cfg map[string]any, lua string) config.Config {
+	w := &extensions.TrafficExtension{Phase: phase, Priority: wrapperspb.Int32(prio)}
+	if lua != "" {
+		w.FilterConfig = &extensions.TrafficExtension_Lua{Lua: &extensions.LuaConfig{InlineCode: lua}}
+	} else {
+		wc := &extensions.WasmConfig{Url: "oci://registry.example/" + name + ":v1"}
+		if cfg != nil {
+			wc.PluginConfig = mustStruct(cfg)
+		}
+		w.FilterConfig = &extensions.TrafficExtension_Wasm{Wasm: wc}
 	}
 	if selector != nil {
 		w.Selector = &typev1beta1.WorkloadSelector{MatchLabels: selector}
 	}
-	return obj(gvk.WasmPlugin, ns, name, w)
+	return obj(gvk.TrafficExtension, ns, name, w)
 }
